@@ -27,6 +27,12 @@ Proof.
   rewrite (H x (or_introl eq_refl)), IH; [reflexivity|]. intros y Hy. apply H. now right.
 Qed.
 
+Lemma filter_all_true {X} (p : X -> bool) (l : list X) : (forall x, In x l -> p x = true) -> filter p l = l.
+Proof.
+  induction l as [|x l IH]; intros H; cbn; [reflexivity|].
+  rewrite (H x (or_introl eq_refl)), IH; [reflexivity|]. intros y Hy. apply H. now right.
+Qed.
+
 Lemma filter_true {X} (l : list X) : filter (fun _ => true) l = l.
 Proof. induction l; cbn; congruence. Qed.
 
